@@ -10,8 +10,8 @@ from ..gen import reref as R
 PID = 'C11'
 SIZES = {
     # tier: (xsd expressions, xpath expressions, mutants per dialect, chunk)
-    'quick': (2300, 700, 330, 125),
-    'thorough': (36000, 12000, 3000, 250),
+    'quick': (2300, 700, 330, 60),
+    'thorough': (36000, 12000, 3000, 60),
     'tiny': (300, 120, 66, 60),       # development only
 }
 XPATH_FLAGS = ['', '', '', 'i', 's', 'm', 'x', 'im', 'sm', 'is', 'ix', 'ims']
@@ -231,6 +231,10 @@ def judge(c, rec, exp=None, ref=None):
         lo2 = 0 if lo is None else lo
         hi2 = len(s) if hi is None else hi
         off = None
+        posdiff = False
+        if len(set(N)) > 1 and len(set(M)) == 1:
+            posdiff = True
+            F.append(dict(kind='options-differ', step=i, variant='positions', main=N[0], other=sorted(set(N))))
         for j in range(len(var)):
             if j >= len(N):
                 break
@@ -249,18 +253,41 @@ def judge(c, rec, exp=None, ref=None):
                 if xsd:
                     if a != off[lo2] or b != off[hi2]:
                         F.append(dict(kind='match-pos', step=i, what='bounds', got=[a, b], variant=var[j] or '~'))
-                else:
-                    if a != off[st]:
-                        F.append(dict(kind='match-pos', step=i, what='start', got=[a, b], expected_start=off[st], variant=var[j] or '~'))
-                    elif j == 0:
-                        ends = ref.nfa.ends_from(s, st, lo2, hi2)
-                        if b not in [off[e] for e in ends]:
-                            F.append(dict(kind='match-pos', step=i, what='end', got=[a, b], variant=var[j] or '~'))
+                elif not posdiff and (j == 0 or f != N[0].split(',')):
+                    what = pos_check(ref, s, lo2, hi2, a, b, off)
+                    if what:
+                        qs = None
+                        for qref in quirk_refs(m):
+                            if pos_check(qref, s, lo2, hi2, a, b, off) is None:
+                                qs = sorted(qref.env.quirks)
+                                break
+                        if qs:
+                            F.append(dict(kind='quirk-pos', step=i, quirks=qs, got=[a, b]))
+                        else:
+                            F.append(dict(kind='match-pos', step=i, what=what, got=[a, b], variant=var[j] or '~'))
         # allMatches / tokenize / replace
         if i in obs.A:
             n += 1
             F.extend(judge_tok(i, s, obs, ref))
     return F, n
+
+
+def pos_check(ref, s, lo, hi, a, b, off):
+    """None when [a,b) (UTF-16 units) is a leftmost match of ref in s[lo:hi], else 'start' / 'end'"""
+    st = ref.nfa.search(s, lo, hi)
+    if st is None or a != off[st]:
+        return 'start'
+    if b not in [off[e] for e in ref.nfa.ends_from(s, st, lo, hi)]:
+        return 'end'
+    return None
+
+
+def quirk_refs(m):
+    import itertools
+    qs = applicable_quirks(m)
+    for r in range(1, len(qs) + 1):
+        for sub in itertools.combinations(qs, r):
+            yield R.Ref(m['ast'], m['dialect'], m['flags'], quirks=frozenset(sub))
 
 
 def judge_tok(i, s, obs, ref):
@@ -307,24 +334,33 @@ def judge_tok(i, s, obs, ref):
     if ''.join(rep) != P:
         F.append(dict(kind='replace-inconsistent', step=i, A=A, replaced=P))
     # positions against the reference: every reported match is a match, no position in between has one
+    bad = allmatch_check(ref, s, pos, off, back)
+    if bad:
+        for qref in quirk_refs({'ast': ref.ast, 'dialect': 'xsd' if ref.xsd else 'xpath', 'flags': ref.flags}):
+            if allmatch_check(qref, s, pos, off, back) is None:
+                F.append(dict(kind='quirk-pos', step=i, quirks=sorted(qref.env.quirks), A=A))
+                return F
+        F.append(dict(kind='allmatches', step=i, what=bad[0], at=bad[1], A=A))
+    return F
+
+
+def allmatch_check(ref, s, pos, off, back):
     nf = ref.nfa
     prev = 0
+    n = len(s)
     for a, b in pos + [(None, None)]:
         stop = off[-1] + 1 if a is None else a
         for q in range(prev, stop):
-            if q in back and q <= off[-1] and nf.ends_from(s, back[q], 0, len(s)):
-                # a match exists at an earlier scan position than the one reported
-                e = nf.ends_from(s, back[q], 0, len(s))
-                if e != {back[q]}:         # (an empty match cannot occur: expression is not nullable)
-                    F.append(dict(kind='allmatches', step=i, what='missed', at=q, A=A))
-                    return F
+            if q in back:
+                e = nf.ends_from(s, back[q], 0, n)
+                if e and e != {back[q]}:
+                    return ('missed', q)
         if a is None:
             break
-        if a not in back or b not in back or back[b] not in nf.ends_from(s, back[a], 0, len(s)):
-            F.append(dict(kind='allmatches', step=i, what='not-a-match', at=[a, b], A=A))
-            return F
+        if a not in back or b not in back or back[b] not in nf.ends_from(s, back[a], 0, n):
+            return ('not-a-match', [a, b])
         prev = b
-    return F
+    return None
 
 
 # ---------------------------------------------------------------------------------------------------
@@ -345,6 +381,8 @@ def applicable_quirks(m):
         qs.append('supp-cn')
     if any(l[0] == 'dot' for l in ls) and 's' not in m['flags']:
         qs.append('dot-lsps')
+    if 'i' in m['flags'] and any(l[0] == 'cls' and l[3] is not None for l in ls):
+        qs.append('icase-subtraction-closure')
     if m['dialect'] == 'xpath':
         kinds = {x[0] for x in R.walk(ast)}
         if 'eol' in kinds and 'm' not in m['flags']:
@@ -398,44 +436,103 @@ def quirk_explanation(c, observed, steps_bad, skip=()):
     return out
 
 
-def single_case(c, ast, strings, cid):
+def single_case(c, ast, strings, cid, tok=False):
     m = c.meta
     cc = build_case(cid, ast, m['dialect'], m['flags'], core.rng('single', cid), strings=strings, extras=False)
+    if tok:
+        for k in range(1, len(cc.steps)):
+            cc.steps[k] = (cc.steps[k][0], cc.steps[k][1], {'t': 1})
     return cc
 
 
-def confirm_cases(c, step, tag):
-    """rewritten forms of the expression of case c for the witness string of `step`:
-    -> [(label, Case)] ; each rewritten expression is language-equivalent on strings up to the witness length"""
-    m = c.meta
-    s, lo, hi = m['steps'][step - 1]
-    sub = s[(lo or 0):(len(s) if hi is None else hi)]
+def _both(p, q):
+    return lambda i: p(i) or q(i)
+
+
+# label, class name, rewrite (ast, L) -> ast.  Every rewrite keeps the language (on strings up to L characters) and
+# moves the expression out of the named structural class; the first rewrite that removes the disagreement names it.
+TRIALS = [
+    ('r', 'class-with-overlapping-ranges', lambda a, L: R.norm_classes(a)),
+    ('n', 'class-closure-before-negated-class', lambda a, L: R.unnegate_classes(a)),
+    ('d', 'leading-dot-closure', lambda a, L: R.rewrite_closures(a, R.P_leading_dot, L)),
+    ('a', 'closure-with-nullable-continuation', lambda a, L: R.rewrite_closures(a, R.P_nullable_cont, L)),
+    ('c', 'final-closure-over-alternatives', lambda a, L: R.rewrite_closures(a, R.P_end_choice, L)),
+    ('ac', 'closure-with-nullable-continuation+final-closure-over-alternatives',
+     lambda a, L: R.rewrite_closures(a, _both(R.P_nullable_cont, R.P_end_choice), L)),
+    ('v', 'closure-with-variable-length-continuation', lambda a, L: R.rewrite_closures(a, R.P_varlen_cont, L)),
+    ('vc', 'closure-with-variable-length-continuation+final-closure-over-alternatives',
+     lambda a, L: R.rewrite_closures(a, _both(R.P_varlen_cont, R.P_end_choice), L)),
+    ('all', 'closure-other', lambda a, L: R.rewrite_closures(a, lambda i: True, L)),
+    ('rn+all', 'classes+closures-other', lambda a, L: R.rewrite_closures(R.unnegate_classes(R.norm_classes(a)), lambda i: True, L)),
+]
+CLASS_OF = {l: n for l, n, _ in TRIALS}
+OPEN_CLASSES = ('closure-other', 'classes+closures-other')
+
+
+def trial_cases(c, ast, s, tag, tok=False):
+    """[(label, Case)]: the rewritten forms of `ast`, each with the single string s"""
     L = max(1, len(s))
-    ast = m['ast']
     out = []
-    preds = [('a', R.P_nullable_cont), ('c', R.P_end_choice),
-             ('ac', lambda i: R.P_nullable_cont(i) or R.P_end_choice(i)), ('all', lambda i: True)]
     seen = {repr(R.flatten(ast))}
-    for label, p in preds:
+    for label, _, fn in TRIALS:
+        if L > 10 and label not in ('r', 'n'):
+            continue
+        if label == 'd' and c.meta['dialect'] == 'xsd':
+            continue      # the scan over start positions exists only in the XPath dialect
         try:
-            rw = R.flatten(R.rewrite_closures(ast, p, L))
+            rw = R.flatten(fn(ast, L))
         except Exception:
             continue
         if repr(rw) in seen:
             continue
         seen.add(repr(rw))
         try:
-            cc = single_case(c, rw, [s if lo is None else sub], '%s~%s~%s' % (c.id, tag, label))
-        except (OverflowError, ValueError):
+            cc = single_case(c, rw, [list(s)], '%s~%s~%s' % (c.id, tag, label), tok=tok)
+        except (OverflowError, ValueError, KeyError):
             continue
-        if len(cc.steps[0][1]) > 6000:
+        if len(cc.steps[0][1]) > 4000:
             continue
         out.append((label, cc))
     return out
 
 
-CLASS_NAMES = {'a': 'closure-with-nullable-continuation', 'c': 'final-closure-over-alternatives',
-               'ac': 'closure-with-nullable-continuation+final-closure-over-alternatives', 'all': 'closure-other'}
+def first_fixed(trials, recs, kinds, item=None):
+    """(label, quirks, table): the first rewrite on which no finding of `kinds` remains -- against the plain reference,
+    or (verdict disagreements only) against the reference with the smallest set of named engine quirks.
+    label 'id' = no rewrite needed once the quirks are taken into account."""
+    fixed = {}
+    verdict_kind = 'false-reject' in kinds
+    order = [l for l, _, _ in TRIALS]
+    byl = dict(trials)
+    # plain reference first
+    obs1 = {}
+    for label, x in trials:
+        rr = recs.get(x.id)
+        if rr is None or rr.crash or rr.hang or not rr.complete:
+            fixed[label] = False
+            continue
+        F2, _ = judge(x, rr)
+        fixed[label] = not [f for f in F2 if f['kind'] in kinds]
+        if verdict_kind:
+            obs1[label] = observed_verdicts(x, rr)[0]
+    for label in order:
+        if fixed.get(label):
+            return label, (), fixed
+    if verdict_kind and item is not None:
+        import itertools
+        m = item['c'].meta
+        qs_all = applicable_quirks(m)
+        cands = [('id', m['ast'], item['observed'])] + [(l, byl[l].meta['ast'], obs1.get(l)) for l in order if l in byl]
+        for r in range(1, len(qs_all) + 1):
+            for qs in itertools.combinations(qs_all, r):
+                for label, ast, ob in cands:
+                    if ob is None:
+                        continue
+                    v = R.Ref(ast, m['dialect'], m['flags'], quirks=frozenset(qs)).verdict(list(item['s']))
+                    if v == ob:
+                        fixed[label + '+' + '+'.join(qs)] = True
+                        return label, qs, fixed
+    return None, (), fixed
 
 
 def sig(ast):
@@ -444,52 +541,60 @@ def sig(ast):
     return ','.join(keep) or 'plain'
 
 
-def shrink(binary, c, step, direction, rounds=40):
-    """delta-debug (expression, string) to a local minimum that still disagrees with the reference in the
-    same direction on the main variant.  -> (ast, cps, pattern text)"""
-    m = c.meta
-    s, lo, hi = m['steps'][step - 1]
-    cur_s = list(s[(lo or 0):(len(s) if hi is None else hi)])
-    cur_a = m['ast']
-    want_obs = direction == 'false-accept'
+def shrink_many(binary, items, J, rounds=24):
+    """delta-debug several (expression, string) pairs at once, one driver batch per round.
+    items: dicts with c, ast, s, direction.  Adds 'ast2', 's2' (local minimum that still disagrees the same way)."""
+    for it in items:
+        it['ast2'], it['s2'], it['live'] = it['ast'], list(it['s']), True
     for rd in range(rounds):
-        cands = []
-        for a2 in R.reductions(cur_a)[:80]:
-            cands.append((a2, cur_s))
-        for i in range(len(cur_s)):
-            cands.append((cur_a, cur_s[:i] + cur_s[i + 1:]))
-        for i, ch in enumerate(cur_s):
-            if ch != 0x61 and ch > 0x7F:
-                pass
         cases = []
-        for j, (a2, s2) in enumerate(cands):
-            if 'i' in m['flags'] and not R.icase_safe(a2):
+        for n, it in enumerate(items):
+            if not it['live']:
                 continue
-            try:
-                cc = single_case(c, a2, [s2], '%s~sh%d~%d' % (c.id, rd, j))
-            except (OverflowError, ValueError, KeyError):
-                continue
-            cc.meta['cand'] = j
-            cases.append(cc)
+            m = it['c'].meta
+            cands = [(a2, it['s2']) for a2 in R.reductions(it['ast2'])[:60]]
+            cands += [(it['ast2'], it['s2'][:i] + it['s2'][i + 1:]) for i in range(len(it['s2']))]
+            it['cands'] = cands
+            k = 0
+            for j, (a2, s2) in enumerate(cands):
+                if 'i' in m['flags'] and not R.icase_safe(a2):
+                    continue
+                if 'x' in m['flags'] and not R.xmode_safe(a2):
+                    continue
+                try:
+                    cc = single_case(it['c'], a2, [s2], '%s~sh%d~%d~%d' % (it['c'].id, rd, n, j))
+                except (OverflowError, ValueError, KeyError):
+                    continue
+                cc.meta['item'] = n
+                cc.meta['cand'] = j
+                cases.append(cc)
+                k += 1
+            if k == 0:
+                it['live'] = False
         if not cases:
             break
-        recs = core.run_cases(binary, cases, shards=min(6, jobs()), tag='c11s', per_case_timeout=20.0)
-        nxt = None
+        recs = core.run_cases(binary, cases, shards=J, tag='c11s', per_case_timeout=10.0)
+        progressed = set()
         for cc in cases:
+            n = cc.meta['item']
+            if n in progressed:
+                continue
+            it = items[n]
             rr = recs.get(cc.id)
             if rr is None or rr.crash or rr.hang or not rr.complete:
                 continue
             exp, _ = expectations(cc)
             ob = observed_verdicts(cc, rr)
-            if ob[0] is None or exp[0][0] == ob[0] or ob[0] != want_obs:
+            if ob[0] is None or exp[0][0] == ob[0] or ob[0] != (it['direction'] == 'false-accept'):
                 continue
-            a2, s2 = cands[cc.meta['cand']]
-            nxt = (a2, s2)
-            break
-        if nxt is None:
-            break
-        cur_a, cur_s = nxt
-    return cur_a, cur_s, R.render(cur_a, m['dialect'] == 'xsd')
+            if quirk_explanation(cc, ob, {1}):
+                continue            # do not slide into a different, already named deviation
+            it['ast2'], it['s2'] = it['cands'][cc.meta['cand']]
+            progressed.add(n)
+        for n, it in enumerate(items):
+            if it['live'] and n not in progressed:
+                it['live'] = False
+    return items
 
 
 # ---------------------------------------------------------------------------------------------------
@@ -547,19 +652,23 @@ def run(tier):
     self_bad = 0
     disagree = []        # (case, rec, findings) with false-reject / false-accept
     optdiff = []         # (case, rec, finding) options-differ
+    posfind = []         # (case, rec, finding) positional findings on expressions with overlapping class ranges
     overflow = []        # (case, rec)
     crashes = 0
     mutops = {}
-    round_size = max(J * chunk, chunk) * 2
     allwork = [('mut', (seed, tier, 'xsd', nm)), ('mut', (seed, tier, 'xpath', nm))] + [('gen', w) for w in work]
-    per_round = max(2, (round_size // chunk))
+    per_round = max(2, J)          # one chunk (60 expressions) per driver process and round: a batch stays far below the 60 s batch watchdog
 
-    def handle(cases, recs):
+    hung = []
+
+    def handle(cases, recs, again=False):
         nonlocal self_bad, crashes
         for c in cases:
             r = recs.get(c.id)
             m = c.meta
-            if m['kind'] == 'mutant':
+            if again:
+                pass
+            elif m['kind'] == 'mutant':
                 mutops[m['op']] = mutops.get(m['op'], 0) + 1
             else:
                 nexpr[m['dialect']] += 1
@@ -570,9 +679,12 @@ def run(tier):
             if r is None:
                 ck.inconclusive.append('no record for %s' % c.id)
                 continue
+            if r.hang and not r.crash and not again:
+                hung.append(c)          # re-run alone once: the watchdog covers a whole batch
+                continue
             if r.crash or r.hang or not r.complete:
                 crashes += 1
-                if is_match_overflow(r) and m['kind'] == 'valid':
+                if m['kind'] == 'valid' and (is_match_overflow(r) or (r.hang and not r.crash)):
                     overflow.append((c, r))
                 else:
                     ck.crash_violation(r, c, prefix='C11:')
@@ -610,7 +722,14 @@ def run(tier):
                 if k == 'options-differ':
                     optdiff.append((c, r, f))
                     continue
+                if k == 'quirk-pos':
+                    for q in f['quirks']:
+                        ck.violation('C11:%s:quirk:%s' % (dtag(m), q), 'verdict or match position differs from the specification exactly as the engine quirk "%s" predicts' % q, witness(c, r, [f]) if ('C11:%s:quirk:%s' % (dtag(m), q)) not in ck.violations else {})
+                    continue
                 D = dtag(m)
+                if k in ('match-pos', 'allmatches'):
+                    posfind.append((c, r, f))
+                    continue
                 if k in ('malformed-accepted',):
                     key = 'C11:%s:malformed-accepted:%s' % (D, f['op'])
                 elif k == 'rejected-not-ParseException':
@@ -625,7 +744,7 @@ def run(tier):
                     key = 'C11:%s:%s:%s' % (D, k, f['what'])
                 else:
                     key = 'C11:%s:%s' % (D, k)
-                ck.violation(key, describe(k), witness(c, r, [f]))
+                ck.violation(key, describe(k), witness(c, r, [f]) if key not in ck.violations else {})
 
     with ProcessPoolExecutor(J) as ex:
         pos = 0
@@ -644,12 +763,23 @@ def run(tier):
                 batch = allwork[pos:pos + per_round]
                 pos += len(batch)
                 nxt = [ex.submit(make_mutants if k == 'mut' else make_chunk, a) for k, a in batch]
-            recs = core.run_cases(binary, cases, shards=J, tag='c11', per_case_timeout=30.0)
+            recs = core.run_cases(binary, cases, shards=J, tag='c11', per_case_timeout=5.0)
             handle(cases, recs)
             ck.note('round done: %d expressions so far, %d evaluations, %d disagreeing, %d overflow' % (
                 nexpr['xsd'] + nexpr['xpath'], ck.evaluations, len(disagree), len(overflow)))
 
-    classify(ck, binary, disagree, optdiff, overflow, J)
+    if hung:
+        ck.note('re-running %d cases that were cut by the batch watchdog, each alone' % len(hung))
+        from concurrent.futures import ThreadPoolExecutor
+        with ThreadPoolExecutor(max(1, min(J, len(hung)))) as tex:
+            res = list(tex.map(lambda c: core.run_cases(binary, [c], shards=1, tag='c11h', per_case_timeout=20.0), hung))
+        recs = {}
+        for d in res:
+            recs.update(d)
+        handle(hung, recs, again=True)
+    ck.cov['batch_watchdog_reruns'] = len(hung)
+    ck.note('classifying %d disagreeing cases, %d option-dependent steps, %d overflows' % (len(disagree), len(optdiff), len(overflow)))
+    classify(ck, binary, disagree, optdiff, overflow, J, posfind)
 
     ck.rule = ('distinct = distinct (pattern text, dialect, flags) whose string set contains at least one member and one '
                'non-member of the language according to the reference (so both verdicts were exercised on it); '
@@ -686,22 +816,26 @@ def describe(k):
     }.get(k, k)
 
 
-def classify(ck, binary, disagree, optdiff, overflow, J):
+def classify(ck, binary, disagree, optdiff, overflow, J, posfind=()):
     """give every disagreement with the reference a narrow key.
-    0. verdict depends on the F/H options: keyed by which variants are right;
+    0. verdict/positions depend on the F/H options: keyed by which variants match and a structural detail;
     1. named engine quirks (a variant of the reference reproduces the observation exactly);
-    2. closure classes: the disagreement must disappear when exactly the closures of the class are rewritten
-       into a union of fixed repetition counts (equivalent language, outside the class);
-    3. anything else is shrunk to a local minimum and keyed by the constructs of the minimum;
-    4. stack overflow: must disappear when closures over nullable operands are rewritten."""
+    2. structural classes: the disagreement must disappear when exactly the constructs of the class are rewritten
+       into an equivalent form outside the class (TRIALS, in order);
+    3. anything else is shrunk to a local minimum, classified again, else keyed by the constructs of the minimum;
+    4. stack overflow / hang: must disappear when closures over nullable operands are rewritten."""
     counts = {}
 
     def report(key, what, w):
         counts[key] = counts.get(key, 0) + 1
-        ck.violation(key, what, w)
+        if key in ck.violations:
+            ck.violations[key]['count'] += 1
+        else:
+            ck.violation(key, what, w() if callable(w) else w)
 
     # ---- 0. option dependence
     optsteps = {}
+    obscache = {}
     for c, r, f in optdiff:
         m = c.meta
         st = f['step']
@@ -709,29 +843,36 @@ def classify(ck, binary, disagree, optdiff, overflow, J):
             continue
         optsteps[c.id].add(st)
         var = c.opt['v'].split(',')
-        M = Obs(r, 0).M.get(st, '')
-        v, start = m['exp'][st - 1]
-        right = [j for j in range(len(var)) if j < len(M) and (M[j] == '1') == bool(v)]
-        names = [var[j] or '~' for j in right]
+        ob = obscache.get(c.id) or obscache.setdefault(c.id, Obs(r, 0))
+        M = ob.M.get(st, '')
+        yes = {j for j in range(len(var)) if j < len(M) and M[j] == '1'}
         base = m['flags']
-        if set(right) == {j for j in range(len(var)) if 'H' in var[j][len(base):]}:
-            label = 'correct-only-with-H'
-        elif set(right) == {j for j in range(len(var)) if 'F' in var[j][len(base):]}:
-            label = 'correct-only-with-F'
-        elif set(right) == {j for j in range(len(var)) if 'H' not in var[j][len(base):]}:
-            label = 'wrong-only-with-H'
-        elif set(right) == {j for j in range(len(var)) if 'F' not in var[j][len(base):]}:
-            label = 'wrong-only-with-F'
-        else:
-            label = 'correct:' + '|'.join(names)
+        H = {j for j in range(len(var)) if 'H' in var[j][len(base):]}
+        Fv = {j for j in range(len(var)) if 'F' in var[j][len(base):]}
+        allv = set(range(len(var)))
+        if f.get('variant') == 'positions' and yes == allv: label = 'match-start-differs'
+        elif yes == H: label = 'match-only-with-H'
+        elif yes == allv - H: label = 'match-only-without-H'
+        elif yes == Fv: label = 'match-only-with-F'
+        elif yes == allv - Fv: label = 'match-only-without-F'
+        else: label = 'match:' + '|'.join(var[j] or '~' for j in sorted(yes))
         s, lo, hi = m['steps'][st - 1]
         detail = 'other'
-        if v and start is not None and start < len(s) and s[start] >= 0x10000:
+        N = ob.N.get(st, [])
+        off = u16off(s)
+        starts = []
+        for j in sorted(yes):
+            fN = N[j].split(',') if j < len(N) else []
+            if len(fN) == 3 and fN[1].isdigit() and int(fN[1]) in off:
+                starts.append(off.index(int(fN[1])))
+        if starts and min(starts) < len(s) and s[min(starts)] >= 0x10000:
             detail = 'supplementary-first-character'
-        report('C11:%s:options-differ:%s:%s' % (dtag(m), label, detail), describe('options-differ'), witness(c, r, [f]))
+        elif R.leading_dot_closure(m['ast']):
+            detail = 'leading-dot-closure'
+        report('C11:%s:options-differ:%s:%s' % (dtag(m), label, detail), describe('options-differ'), lambda c=c, r=r, f=f: witness(c, r, [f]))
 
-    # ---- 1. quirks, 2. closure classes
-    pending = []
+    # ---- 1. quirks; collect what is left
+    items = []          # dict(c, r, fs, f0, direction|kind, ast, s, trials)
     for c, r, dis in disagree:
         m = c.meta
         D = dtag(m)
@@ -743,71 +884,105 @@ def classify(ck, binary, disagree, optdiff, overflow, J):
         expl = quirk_explanation(c, observed, bad, skip=optsteps.get(c.id, ()))
         done = set()
         for f in dis:
-            qs = expl.get(f['step'])
-            if not qs:
-                continue
-            for q in qs:
-                if (q,) in done:
-                    continue
-                done.add((q,))
-                report('C11:%s:quirk:%s' % (D, q), 'verdict differs from the specification exactly as the engine quirk "%s" predicts' % q,
-                       witness(c, r, [f], {'quirks': list(qs)}))
+            for q in expl.get(f['step'], ()):
+                if q not in done:
+                    done.add(q)
+                    report('C11:%s:quirk:%s' % (D, q), 'verdict differs from the specification exactly as the engine quirk "%s" predicts' % q,
+                           lambda c=c, r=r, f=f, qs=expl[f['step']]: witness(c, r, [f], {'quirks': list(qs)}))
         rest = [f for f in dis if f['step'] not in expl]
         for direction in ('false-reject', 'false-accept'):
             fs = [f for f in rest if f['kind'] == direction]
             if not fs:
                 continue
-            fs.sort(key=lambda f: (len(m['steps'][f['step'] - 1][0]), f['step']))
+
+            def wlen(f):
+                s, lo, hi = m['steps'][f['step'] - 1]
+                return (hi - lo) if lo is not None else len(s)
+            fs.sort(key=lambda f: (wlen(f), f['step']))
             f0 = fs[0]
-            wl = len(m['steps'][f0['step'] - 1][0])
-            cc = confirm_cases(c, f0['step'], direction[6:]) if wl <= 8 else []
-            pending.append((c, r, fs, f0, direction, cc))
+            s, lo, hi = m['steps'][f0['step'] - 1]
+            sub = list(s if lo is None else s[lo:hi])
+            items.append(dict(c=c, r=r, fs=fs, f0=f0, direction=direction, kinds=('false-reject', 'false-accept'), observed=(direction == 'false-accept'),
+                              ast=m['ast'], s=sub, trials=trial_cases(c, m['ast'], sub, direction[6:])))
+    seenp = set()
+    for c, r, f in posfind:
+        if c.id in seenp or f['step'] in optsteps.get(c.id, ()):
+            continue
+        seenp.add(c.id)
+        m = c.meta
+        s, lo, hi = m['steps'][f['step'] - 1]
+        sub = list(s if lo is None else s[lo:hi])
+        items.append(dict(c=c, r=r, fs=[f], f0=f, direction=None, kinds=('match-pos', 'allmatches'), ast=m['ast'], s=sub,
+                          trials=trial_cases(c, m['ast'], sub, 'pos', tok=True)))
+    # overflow / hang confirmations
     opend = []
     for c, r in overflow:
         m = c.meta
         try:
             rw = R.rewrite_unbounded_nullable(m['ast'])
             changed = repr(rw) != repr(R.flatten(m['ast'])) and any(R.P_unbounded_nullable(i) for _, i in R.closures(m['ast']))
-            strings = [s for s, lo, hi in m['steps'] if lo is None]
+            strings = [s for s, lo, hi in m['steps'] if lo is None and len(s) <= 5][:60]
             cc = build_case(c.id + '~ovf', rw, m['dialect'], m['flags'], core.rng('ovf', c.id), strings=strings, extras=False) if changed else None
         except (ValueError, OverflowError):
             cc = None
         opend.append((c, r, cc))
-    extra = [x for p in pending for _, x in p[5]] + [cc for _, _, cc in opend if cc is not None]
-    recs = core.run_cases(binary, extra, shards=J, tag='c11c', per_case_timeout=30.0) if extra else {}
+    extra = [x for it in items for _, x in it['trials']] + [cc for _, _, cc in opend if cc is not None]
+    ck.note('classification: %d items, %d rewritten cases' % (len(items), len(extra)))
+    recs = core.run_cases(binary, extra, shards=J, tag='c11c', per_case_timeout=10.0) if extra else {}
     ck.evaluations += len(extra)
-    nshrunk = 0
-    shrunk_seen = {}
-    for c, r, fs, f0, direction, cc in pending:
-        m = c.meta
-        D = dtag(m)
-        fixed = {}
-        for label, x in cc:
-            rr = recs.get(x.id)
-            if rr is None or rr.crash or rr.hang or not rr.complete:
-                fixed[label] = False
-                continue
-            F2, _ = judge(x, rr)
-            fixed[label] = not F2
-        cls = None
-        for label in ('a', 'c', 'ac', 'all'):
-            if fixed.get(label):
-                cls = CLASS_NAMES[label]
-                break
-        extra_w = {'rewrites': {label: {'pattern': pattern_of(x), 'agrees_with_reference': fixed.get(label)} for label, x in cc},
-                   'disagreeing_strings': len(fs)}
-        if cls is None or cls == 'closure-other':
-            cls = cls or 'unexplained'
-            if nshrunk < 12:
-                nshrunk += 1
-                a2, s2, text = shrink(binary, c, f0['step'], direction)
-                extra_w['shrunk'] = {'pattern': text, 'string': R.to_str(s2)}
-                key = 'C11:%s:%s:%s:%s' % (D, direction, cls, sig(a2))
+    todo = []
+    for it in items:
+        label, qs, fixed = first_fixed(it['trials'], recs, it['kinds'], it)
+        it['fixed'] = fixed
+        it['quirks'] = qs
+        it['cls'] = 'quirk-only' if label == 'id' else (CLASS_OF[label] if label else None)
+        if it['direction'] and (it['cls'] is None or it['cls'] in OPEN_CLASSES):
+            todo.append(it)
+    # ---- 3. shrink what has no closed class yet, classify the minimum
+    if todo:
+        ck.note('shrinking %d unexplained disagreements' % len(todo))
+        shrink_many(binary, todo, J)
+        cases2 = []
+        for it in todo:
+            it['trials2'] = trial_cases(it['c'], it['ast2'], it['s2'], 'min')
+            cases2.extend(x for _, x in it['trials2'])
+        recs2 = core.run_cases(binary, cases2, shards=J, tag='c11d', per_case_timeout=10.0) if cases2 else {}
+        for it in todo:
+            it2 = dict(it, s=it['s2'], observed=(it['direction'] == 'false-accept'))
+            it2['c'] = single_case(it['c'], it['ast2'], [it['s2']], it['c'].id + '~min')
+            label, qs2, fixed2 = first_fixed(it['trials2'], recs2, it['kinds'], it2)
+            it['quirks'] = tuple(sorted(set(it['quirks']) | set(qs2)))
+            it['shrunk'] = {'pattern': R.render(it['ast2'], it['c'].meta['dialect'] == 'xsd'), 'string': R.to_str(it['s2']),
+                            'rewrites': {l: {'pattern': pattern_of(x), 'agrees_with_reference': fixed2.get(l)} for l, x in it['trials2']}}
+            if label == 'id':
+                it['cls'] = 'quirk-only'
+            elif label and CLASS_OF[label] not in OPEN_CLASSES:
+                it['cls'] = CLASS_OF[label]
             else:
-                key = 'C11:%s:%s:%s:not-shrunk' % (D, direction, cls)
+                it['cls'] = (CLASS_OF[label] if label else 'unexplained') + ':' + sig(it['ast2'])
+    for it in items:
+        c, r, m = it['c'], it['r'], it['c'].meta
+        D = dtag(m)
+        extra_w = {'rewrites': {l: {'pattern': pattern_of(x), 'agrees_with_reference': it['fixed'].get(l)} for l, x in it['trials']},
+                   'disagreeing_strings': len(it['fs'])}
+        if 'shrunk' in it:
+            extra_w['shrunk'] = it['shrunk']
+        for q in it.get('quirks', ()):
+            report('C11:%s:quirk:%s' % (D, q), 'verdict differs from the specification exactly as the engine quirk "%s" predicts' % q,
+                   lambda c=c, r=r, it=it, extra_w=extra_w: witness(c, r, [it['f0']], extra_w))
+        if it['cls'] == 'quirk-only':
+            continue
+        if it['direction']:
+            key = 'C11:%s:%s:%s' % (D, it['direction'], it['cls'])
+            what = describe(it['direction']) + ' [class: %s]' % it['cls']
         else:
-            key = 'C11:%s:%s:%s' % (D, direction, cls)
-        report(key, describe(direction) + ' [class: %s]' % cls, witness(c, r, [f0], extra_w))
+            f = it['f0']
+            detail = it['cls']
+            if detail is None and f.get('what') == 'end' and fixed_string_end(m, f, c):
+                detail = 'fixed-string-uses-pattern-length'
+            key = 'C11:%s:%s:%s' % (D, f['kind'], detail or f['what'])
+            what = describe(f['kind']) + (' [class: %s]' % detail if detail else '')
+        report(key, what, lambda c=c, r=r, it=it, extra_w=extra_w: witness(c, r, [it['f0']], extra_w))
     for c, r, cc in opend:
         m = c.meta
         D = dtag(m)
@@ -815,12 +990,23 @@ def classify(ck, binary, disagree, optdiff, overflow, J):
         if cc is not None:
             rr = recs.get(cc.id)
             ok = rr is not None and rr.complete and not rr.crash and not rr.hang
-        key = 'C11:%s:stack-overflow:%s' % (D, 'unbounded-closure-over-nullable-operand' if ok else 'other:' + sig(m['ast']))
-        report(key, 'stack overflow (unbounded recursion) in RegularExpression::match'
+        sym = 'hang' if (r.hang and not r.crash) else 'stack-overflow'
+        key = 'C11:%s:%s:%s' % (D, sym, 'unbounded-closure-over-nullable-operand' if ok else 'other:' + sig(m['ast']))
+        report(key, ('the match does not terminate' if sym == 'hang' else 'stack overflow (unbounded recursion) in RegularExpression::match')
                + (' ; disappears when the closure operand is rewritten so that it cannot match the empty string' if ok else ''),
                {'case': c.to_json(), 'pattern': pattern_of(c), 'rewritten': pattern_of(cc) if cc else None,
                 'report': r.crash.text[:3000] if r.crash else None})
     ck.cov['disagreement_classes'] = dict(sorted(counts.items()))
+
+
+def fixed_string_end(m, f, c):
+    """the expression is a plain string (Boyer-Moore only path) and the reported length is that of the pattern text"""
+    ast = m['ast']
+    parts = ast[1] if ast[0] == 'seq' else [ast]
+    if not all(p[0] == 'lit' for p in parts) or 'i' in m['flags']:
+        return False
+    a, b = f['got']
+    return b - a == len(pattern_of(c).encode('utf-16-le')) // 2
 
 
 # ---------------------------------------------------------------------------------------------------
